@@ -10,6 +10,8 @@
 (*   ReadRet off n ok err      application Read                                  *)
 (*   Quiesce sent wdone rread rtotal   the harness waited until nothing moved    *)
 (*   ServerCut                 the server dropped the connection (fault)         *)
+(*   Refused n                 the server answered the request (body n) with a   *)
+(*                             status other than 200                             *)
 (*   CloseCall / Close / Exited b   Close() called / returned; did the worker    *)
 (*                             goroutine end                                     *)
 (*                             (polling stopped) once responses were released    *)
@@ -54,12 +56,19 @@ TQuiesce == /\ Is("Quiesce") /\ l' = l + 1 /\ ~closed
 TCloseCall == Is("CloseCall") /\ l' = l + 1 /\ closed' = TRUE /\ UNCHANGED <<wcalled, wdone, sent, rtotal, rread, sid>>
 \* fault scenarios (C10): the server drops the connection instead of answering; from then on calls may fail, and they
 \* must RETURN (the driver waits for every Write) - no panic, no wedge
+\* growth beyond the statement's premise ("while the server answers 200"): a request answered with another status does not
+\* count - roundTrip waits retryDelay (30 s) and posts again, and the next Req must carry the range after the last ACCEPTED
+\* body (off = sent after the roll-back).  A body sent along with the refusal must not reach Read (ReadRet's ok / off).
+\* After MaxRetries (10) refusals in a row of one request the worker gives up and the connection closes itself: calls fail.
+TRefused == Is("Refused") /\ l' = l + 1 /\ sent' = sent - Trace[l].n /\ Trace[l].n <= sent
+            /\ closed' = (closed \/ Trace[l].k >= 10)
+            /\ UNCHANGED <<wcalled, wdone, rtotal, rread, sid>>
 TServerCut == Is("ServerCut") /\ l' = l + 1 /\ closed' = TRUE /\ UNCHANGED <<wcalled, wdone, sent, rtotal, rread, sid>>
 TClose == Is("Close") /\ l' = l + 1 /\ closed /\ UNCHANGED <<wcalled, wdone, sent, rtotal, rread, closed, sid>>
 \* after Close polling stops (the worker ends); Read fails once drained (the final ReadRet carries the error)
 TExited == Is("Exited") /\ l' = l + 1 /\ closed /\ Trace[l].b /\ Trace[l].read_failed /\ Trace[l].write_failed
            /\ UNCHANGED <<wcalled, wdone, sent, rtotal, rread, closed, sid>>
-TNext == TServerCut \/ TCloseCall \/ TReset \/ TWriteCall \/ TWriteRet \/ TReq \/ TResp \/ TReadRet \/ TQuiesce \/ TClose \/ TExited
+TNext == TRefused \/ TServerCut \/ TCloseCall \/ TReset \/ TWriteCall \/ TWriteRet \/ TReq \/ TResp \/ TReadRet \/ TQuiesce \/ TClose \/ TExited
 TraceSpec == TInit /\ [][TNext]_tvars
 HW == TLCSet(1, IF l - 1 > TLCGet(1) THEN l - 1 ELSE TLCGet(1))
 TraceAccepted == IF TLCGet(1) = Len(Trace) THEN TRUE ELSE PrintT(<<"REJECTED_AFTER", TLCGet(1)>>) /\ FALSE
